@@ -110,6 +110,7 @@ SHAPES_LEGACY = {
 }
 SHAPES_13 = {
     "ccs13": [False],
+    "early_s": [1, 2],
     "pad13": [1, 200],
     "pad13_hs": [1, 17],
     "tickets": [1, 2],
